@@ -327,6 +327,16 @@ class Scenario:
                 return super().stopped()
 
             def join(self, *a, **kw):
+                timeout = a[0] if a else kw.get("timeout")
+                if timeout is not None:
+                    # a bounded join may give up at any moment: the point is
+                    # always enabled, and when the thread has not finished by
+                    # the time it is scheduled, the timeout has elapsed
+                    sched.point("callback_thread.join(timeout)")
+                    if sched.ts["cb"].state != "done":
+                        sched.emit(ev="join_timeout")
+                        return None
+                    return super().join()
                 sched.point("callback_thread.join",
                             enabled=lambda: not self.is_alive() or
                             sched.ts["cb"].state == "done")
